@@ -280,6 +280,7 @@ func Gen(rt *rapid.T) Program {
 	files := map[string]string{"base/base.go": basePkg}
 	p := Program{Packages: nlibs + 2}
 	var mainBody strings.Builder
+	hubDecl := ""
 	imports := []string{`"ROOT/base"`}
 	line := 0
 	emit := func(expr string) {
@@ -299,6 +300,10 @@ func Gen(rt *rapid.T) Program {
 		fmt.Fprintf(&sb, "func OwnBox() base.Box[Own] { return base.MakeBox(Own{%d}) }\n\n", l)
 		fmt.Fprintf(&sb, "func BoxInt() interface{} { return base.MakeBox(%d) }\n\n", 41+l)
 		fmt.Fprintf(&sb, "func LocalInt() interface{} { return base.Local(%d) }\n\n", 5)
+		// Fan is only ever instantiated from generic code of another package (main.hub); every
+		// library feeds its own instances of the base generics back into the base package
+		fan := [][2]string{{"[]T{x}", "[]T"}, {"map[string]T{\"k\": x}", "map[string]T"}, {"&x", "*T"}, {"[2]T{x, x}", "[2]T"}, {"func() T { return x }", "func() T"}}[l%5]
+		fmt.Fprintf(&sb, "func Fan[T any](x T) string {\n\treturn base.MakeBox(%s).Kind() + \"/\" + base.Name[base.Pair[string, %s]]() + \"/\" + base.LocalTagged(base.MakeBox(x)).TypeTag()\n}\n", fan[0], fan[1])
 		nfun := rapid.IntRange(1, 4).Draw(rt, "nfun")
 		for k := 0; k < nfun; k++ {
 			t := pickT("libT")
@@ -324,6 +329,26 @@ func Gen(rt *rapid.T) Program {
 		files[name+"/"+name+".go"] = sb.String()
 		emit(fmt.Sprintf("base.Describe(%s.OwnBox()) + %s.OwnBox().Kind() + base.CallStr(%s.Own{})", name, name, name))
 		emit(fmt.Sprintf("%s.Wrap(%s.Own{1}) + base.LocalTagged(%s.Own{}).TypeTag()", name, name, name))
+	}
+	// hub instantiates the libraries' Fan functions from generic code only
+	{
+		var calls []string
+		for l := 0; l < nlibs; l++ {
+			calls = append(calls, fmt.Sprintf("lib%d.Fan(x)", l))
+		}
+		// packages whose generics are never instantiated from ordinary code: they get their
+		// first instances while instances are propagated through generic code
+		late := [][3]string{{"fana", "[]T{x}", "[]T"}, {"fanb", "map[string]T{\"k\": x}", "map[string]T"}, {"fanc", "&x", "*T"}, {"fand", "[2]T{x, x}", "[2]T"}}
+		nlate := rapid.IntRange(2, 4).Draw(rt, "nlate")
+		for _, lp := range late[:nlate] {
+			files[lp[0]+"/"+lp[0]+".go"] = fmt.Sprintf("package %s\n\nimport \"ROOT/base\"\n\nfunc Of[T any](x T) string {\n\treturn base.MakeBox(%s).Kind() + \"/\" + base.Name[base.Pair[string, %s]]() + \"/\" + inner(base.MakeBox(x))\n}\n\nfunc inner[U any](u U) string { return base.LocalTagged(u).TypeTag() + base.Name[base.Rev[U, %s]]() }\n", lp[0], lp[1], lp[2], "string")
+			imports = append(imports, fmt.Sprintf(`"ROOT/%s"`, lp[0]))
+			calls = append(calls, lp[0]+".Of(x)")
+		}
+		p.Packages += nlate
+		hubDecl = "func hub[T any](x T) string { return " + strings.Join(calls, " + \"|\" + ") + " }\n\n"
+		emit("hub(1) + \" \" + hub(\"s\")")
+		emit("hub(base.Named(2)) + \" \" + hub([]int{1})")
 	}
 	// main-side instantiations
 	// every probe kind at most once per program, in a drawn order (rapid favours small values,
@@ -384,6 +409,7 @@ func Gen(rt *rapid.T) Program {
 		mb.WriteString("\t" + im + "\n")
 	}
 	mb.WriteString(")\n\ntype mine struct{}\n\nfunc (mine) Str() string { return \"mine\" }\n\ntype ptrmine struct{ n int }\n\nfunc (p *ptrmine) Str() string { p.n++; return \"ptrmine\" }\n\n")
+	mb.WriteString(hubDecl)
 	mb.WriteString("func describeSwitch(v interface{}) string {\n\tswitch v.(type) {\n\tcase base.Box[int]:\n\t\treturn \"[Box[int]]\"\n\tcase base.Box[string]:\n\t\treturn \"[Box[string]]\"\n\tcase base.Pair[string, int]:\n\t\treturn \"[Pair[string,int]]\"\n\tcase base.Pair[string, string]:\n\t\treturn \"[Pair[string,string]]\"\n\tcase base.Box[base.Named]:\n\t\treturn \"[Box[Named]]\"\n\t}\n\treturn \"[\" + base.Describe(v) + \"?]\"\n}\n\n")
 	mb.WriteString("func mapKeys(vs ...interface{}) string {\n\tm := map[interface{}]int{}\n\tfor i, v := range vs {\n\t\tm[v] += i + 1\n\t}\n\tr := itoa(len(m))\n\tfor _, v := range vs {\n\t\tr += \",\" + itoa(m[v])\n\t}\n\treturn r\n}\n\n")
 	mb.WriteString("func main() {\n" + mainBody.String() + "}\n")
